@@ -22,7 +22,8 @@ EXPLANATION = (
     "decoded and yielded. Agreement of the generated jq program with the "
     "documented flattening (first sentence) is NOT decided: it is a "
     "translation-correctness claim over a program assembled at run time and "
-    "needs a reference interpreter and execution.")
+    "needs a reference interpreter and execution."
+    " Added: R13.4/R13.5 file iteration and per-line mode; R13.6 a yielded span is built from the current record; R13.7 no rewind / re-open between two yields.")
 NOT_DECIDED = ["agreement of the generated jq program with the documented "
                "path semantics (C13, first sentence)"]
 ASSUMPTIONS: list[str] = []
